@@ -4,7 +4,7 @@
    [Reachable (step c) (Initial n B) s] ranges over EVERY schedule from every initial state with n Stop
    callers (any n) and budget B. *)
 From Coq Require Import List Arith Lia Bool.
-From Dastard Require Import C10.Conc C10.Model C10.Spec C10.Proofs C10.Proofs2 C10.Variant C10.Variant2.
+From Dastard Require Import C10.Conc C10.Model C10.Spec C10.Proofs C10.Proofs2 C10.Variant C10.Variant2 C10.RpcModel C10.RpcSpec C10.RpcProofs.
 Import ListNotations.
 
 (* In every reachable state: nothing has crashed; Active implies the run-done counter is 1 and the core
@@ -103,3 +103,30 @@ Theorem stop_returns_every_step_counts :
     (abort s = ChClosed -> counted c s t = true) /\ (flow_tid t = false -> counted c s t = true).
 Proof. exact every_step_counts. Qed.
 Print Assumptions stop_returns_every_step_counts.
+
+(* ---------- the same at the RPC entry points (SourceControl.Start / Stop, model RpcModel.v) ----------
+   The source underneath is what the theorems above establish: AnySource.Stop returns and leaves the source
+   Inactive and restartable; a source of a self-ending kind may become Inactive at any moment without the
+   server being told.  For EVERY history of Start / Stop calls and self-endings: *)
+
+(* once a Stop call has returned (with whatever result), the server's own flag is down and no source runs ... *)
+Theorem rpc_stop_postcondition :
+  forall h, let s' := fst (rpc_run rpc_init (h ++ [RStop])) in r_flag s' = false /\ r_run s' = RunNone.
+Proof. exact rpc_stop_post. Qed.
+Print Assumptions rpc_stop_postcondition.
+
+(* ... and the next Start, of any source, is accepted (also when the stopped source had ended by itself before
+   the Stop arrived, and after a repeated Stop). *)
+Theorem rpc_stop_restartable :
+  forall h k, exists rs, snd (rpc_run rpc_init (h ++ [RStop; RStart k])) = rs ++ [ROk].
+Proof. exact rpc_restart. Qed.
+Print Assumptions rpc_stop_restartable.
+
+(* The model's answers pass the observable checker C10_rpc_check (every call returns; a Start right after a
+   Stop succeeds; a Start while a non-self-ending source runs is refused; after a final Stop the flag is
+   down and nothing is active), for every history. *)
+Theorem rpc_refines_checker :
+  forall h, C10_rpc_check (mkRobs h (snd (rpc_run rpc_init h)) false (r_flag (fst (rpc_run rpc_init h)))
+                                  (is_live (fst (rpc_run rpc_init h)))) = true.
+Proof. exact rpc_model_passes_checker. Qed.
+Print Assumptions rpc_refines_checker.
